@@ -5,7 +5,7 @@ open Datatypes
 open List0
 
 type istats = { st_min : coq_Z; st_max : coq_Z; st_incr : coq_Z;
-                st_allow : bool; st_last : coq_Z }
+                st_allow : bool; st_last : coq_Z; st_seen : bool }
 
 val istats_init : istats
 
